@@ -1,17 +1,18 @@
 #!/bin/bash
 # Builds the framework from files on disk only (offline).
 set -e
-cd /verif
+cd "$(dirname "$(readlink -f "$0")")"
+HERE="$PWD"
 export GOPROXY=off GOSUMDB=off GOTOOLCHAIN=local
 mkdir -p build evidence replays
 python3 - <<'PY'
 import sys
-sys.path.insert(0, '/verif')
+sys.path.insert(0, '.')
 from vlib import common as C
 C.build_go()
 ok, msg = C.run_factgen()
 if not ok:
     print("factgen failed:", msg); sys.exit(1)
 PY
-cd /verif/lean
+cd "$HERE/lean"
 lake build Cpf Cpf.AuditTool 2>&1 | tail -5
